@@ -26,6 +26,7 @@ type Contract struct {
 	Decreases   map[int]*Clause
 	Assigns     []*Clause // nil = unspecified; a clause with Text "nothing" = pure
 	HasAssigns  bool
+	Tokens      bool // the function is verified with the token view of streams
 	AssignsAssumed bool
 	NoInline    bool
 	Inline      bool // execute the body in place at call sites (with this contract's loop annotations) instead of using the contract
@@ -320,6 +321,8 @@ func (c *Contract) addClause(word, rest string, line int) error {
 		for _, k := range strings.Split(rest, ",") {
 			c.Expand[strings.TrimSpace(k)] = true
 		}
+	case "tokens":
+		c.Tokens = true
 	case "inline":
 		c.Inline = true
 	case "noinline":
